@@ -667,7 +667,11 @@ impl FixedScen {
             let a = if rng.chance(1, 25) && !used.is_empty() {
                 rng.pick(&used).clone() // duplicate
             } else if rng.chance(1, 40) {
-                format!("-{}", invalid_addr(rng, &self.pool))
+                if rng.chance(1, 3) {
+                    "-".to_string() // a blank row: the empty address (seeded change C06-20)
+                } else {
+                    format!("-{}", invalid_addr(rng, &self.pool))
+                }
             } else {
                 format!("+{}", cands[(i + (self.seed as usize)) % cands.len()])
             };
